@@ -88,6 +88,28 @@ int main(int argc, char **argv)
   if (mode == "string")
   {
     for (int alg = 0; alg < 3; ++alg)
+    {
+      // a hasher object that lives across all messages (wencry re-uses one for the IV chain): its
+      // digest of message i must not depend on message i-1
+      Hashmaster *shared = mk(alg);
+      for (int n = 0; n <= maxlen; ++n)
+      {
+        auto m = wv_content(rng, n, 1);
+        u8_t out[32];
+        shared->getStringHash(wv_ptr(m), n, out);
+        Ev("hash").i("id", id++).i("alg", alg).str("entry", "string-shared-object").i("n", n).b("prefix", NULL, 0).b("msg", m).b("out", out, shared->gethlen()).emit();
+        if (n % 7 == 3)
+        { // and after a long message, whose length field has non-zero high bytes
+          auto big = wv_content(rng, 700 + n, 1);
+          shared->getStringHash(big.data(), big.size(), out);
+          auto m2 = wv_content(rng, 56 + n % 7, 1);
+          shared->getStringHash(m2.data(), m2.size(), out);
+          Ev("hash").i("id", id++).i("alg", alg).str("entry", "string-shared-object").i("n", (int)m2.size()).b("prefix", NULL, 0).b("msg", m2).b("out", out, shared->gethlen()).emit();
+        }
+      }
+      delete shared;
+    }
+    for (int alg = 0; alg < 3; ++alg)
       for (int n = 0; n <= maxlen; ++n)
         for (int rep = 0; rep < reps; ++rep)
         {
